@@ -41,7 +41,7 @@ TIERS = {
         "C12": (10000, 50),
         "C13": (15000, 45),
         "C14": (11000, 60),
-        "C15": (1200, 80),
+        "C15": (2200, 85),
         "C16": (8000, 50),
         "C19": (2400, 80),
         "C20": (34000, 60),
